@@ -69,7 +69,7 @@ TOTAL_Q = R("total_q", "total_q.cfg", expect_ops=["replace_subject", "compress_s
 REGISTRY_Q = dict(name="registry_q", module="Registry", cfg="Registry.cfg", rounds=1, replayer="regreplay", workers=4,
                   expect_ops=["kv_insert", "fn_insert", "pm_insert", "make_context"])
 LOCKS_Q = dict(name="locks_q", kind="locks", driver="lockcheck", threads=3, calls=2, rounds=40, stress_threads=16, stress_calls=3)
-LOCKS_T = dict(name="locks_t", kind="locks", driver="lockcheck", threads=4, calls=2, rounds=300, stress_threads=16, stress_calls=4, timeout=3000)
+LOCKS_T = dict(name="locks_t", kind="locks", driver="lockcheck", threads=4, calls=2, rounds=300, stress_threads=16, stress_calls=4, timeout=7000)
 
 EXPR_Q = R("expr_q", "expr_q.cfg", expect_ops=["expression", "request", "response", "event", "malform", "obs_parse"])
 
